@@ -19,7 +19,9 @@
 
 static time_t g_now=1000000; extern "C" time_t time(time_t *t){ if(t) *t=g_now; return g_now; }
 using cm::Op;
-static std::vector<Op> alphabet(){ std::vector<Op> v; Op o; o.k=Op::FETCH; o.key="a"; v.push_back(o); o.key="b"; v.push_back(o); { Op s; s.k=Op::STORE; s.key="a"; s.trig.insert("t"); s.dl=-1; v.push_back(s); } { Op s; s.k=Op::STORE; s.key="a"; s.dl=-1; v.push_back(s); } { Op s; s.k=Op::STORE; s.key="b"; s.trig.insert("t"); s.dl=-1; v.push_back(s); } { Op r; r.k=Op::RISE; r.key="t"; v.push_back(r); } { Op r; r.k=Op::REMOVE; r.key="a"; v.push_back(r); } { Op c; c.k=Op::CLEAR; v.push_back(c); } { Op s; s.k=Op::STATS; v.push_back(s); } return v; }
+// the two keys have the same hash value (PJW hash: 'a'*16+0x20 == 'b'*16+0x10), so they always share a bucket of the cache's hash table: operations on one walk past the other
+static const std::string KA("a "), KB("b\x10");
+static std::vector<Op> alphabet(){ std::vector<Op> v; Op o; o.k=Op::FETCH; o.key=KA; v.push_back(o); o.key=KB; v.push_back(o); { Op s; s.k=Op::STORE; s.key=KA; s.trig.insert("t"); s.dl=-1; v.push_back(s); } { Op s; s.k=Op::STORE; s.key=KA; s.dl=-1; v.push_back(s); } { Op s; s.k=Op::STORE; s.key=KB; s.trig.insert("t"); s.dl=-1; v.push_back(s); } { Op r; r.k=Op::RISE; r.key="t"; v.push_back(r); } { Op r; r.k=Op::REMOVE; r.key=KA; v.push_back(r); } { Op c; c.k=Op::CLEAR; v.push_back(c); } { Op s; s.k=Op::STATS; v.push_back(s); } return v; }
 struct Init { std::string label; unsigned limit; std::vector<Op> ops; };
 static std::vector<Init> inits(){ std::vector<Init> v; std::vector<Op> A=alphabet(); Init e; e.label="empty"; e.limit=0; v.push_back(e); Init a; a.label="{a}"; a.limit=0; a.ops.push_back(A[2]); v.push_back(a); Init ab; ab.label="{a,b}@limit2"; ab.limit=2; ab.ops.push_back(A[2]); ab.ops.push_back(A[4]); v.push_back(ab); Init a1; a1.label="{a}@limit1"; a1.limit=1; a1.ops.push_back(A[3]); v.push_back(a1); return v; }
 
@@ -39,7 +41,7 @@ static void check_program(const Init &in,const std::vector<std::vector<int> > &p
 	auto factory=[&]()->std::vector<std::function<void()> >{ cur.reset(new Exec()); cur->cache=cppcms::impl::thread_cache_factory(in.limit); for(size_t i=0;i<in.ops.size();i++){ int sid; do_op(*cur,in.ops[i],sid); } std::vector<std::function<void()> > b; std::shared_ptr<Exec> x=cur; for(size_t t=0;t<progs.size();t++){ std::vector<int> pr=progs[t]; b.push_back([x,pr,t,&A](){ for(size_t i=0;i<pr.size();i++){ Event e; e.thread=t; e.opidx=pr[i]; e.op=A[pr[i]]; e.inv=++x->clock; int sid=0; e.obs=do_op(*x,e.op,sid); e.store_id=sid; e.res=++x->clock; /* only one thread runs at a time */ x->hist.push_back(e); } }); } return b; };
 	auto after=[&](const sched::Result &r){ n_exec++; vf::eval(); vf::C().traces++; vf::C().transitions+=r.points.size(); if(r.deadlock){ vf::violation("deadlock:"+in.label,"a schedule deadlocks: not every operation completes ["+cs+" schedule="+r.choices+"]","\"case\":"+vf::jstr(cs)+",\"schedule\":"+vf::jstr(r.choices)); return; }
 		Exec &x=*cur; // audit (single-threaded, after all threads finished)
-		std::vector<Event> audit; { Op st; st.k=Op::STATS; Event e; e.op=st; int sid; e.obs=do_op(x,st,sid); audit.push_back(e); const char *ks[]={"a","b"}; for(int k=0;k<2;k++){ Op f; f.k=Op::FETCH; f.key=ks[k]; Event e2; e2.op=f; e2.obs=do_op(x,f,sid); audit.push_back(e2); } }
+		std::vector<Event> audit; { Op st; st.k=Op::STATS; Event e; e.op=st; int sid; e.obs=do_op(x,st,sid); audit.push_back(e); std::string ks[]={KA,KB}; for(int k=0;k<2;k++){ Op f; f.k=Op::FETCH; f.key=ks[k]; Event e2; e2.op=f; e2.obs=do_op(x,f,sid); audit.push_back(e2); } }
 		cm::Model M(in.limit,g_now); for(size_t i=0;i<in.ops.size();i++){ M.step(in.ops[i],"ok"); } std::vector<int> order; std::vector<bool> used(x.hist.size(),false); std::string why; std::vector<Event> H=x.hist;
 		bool overlap=false; for(size_t i=0;i<H.size();i++) for(size_t j=0;j<H.size();j++) if(i!=j&&H[i].inv<H[j].res&&H[j].inv<H[i].res) overlap=true; if(overlap) n_overlap_hist++;
 		if(!lin_search(M,H,order,used,audit,why)){ std::string hs; for(size_t i=0;i<H.size();i++) hs+="T"+std::to_string(H[i].thread)+":"+H[i].op.str()+"@["+std::to_string(H[i].inv)+","+std::to_string(H[i].res)+"]->"+H[i].obs+"; "; std::string as; for(size_t i=0;i<audit.size();i++) as+=audit[i].op.str()+"->"+audit[i].obs+"; "; bool fetch_involved=false; for(size_t i=0;i<H.size();i++) if(H[i].op.k==Op::FETCH&&H[i].obs!="miss") fetch_involved=true; vf::violation(std::string("not-linearizable:")+(fetch_involved?"fetch-result":"final-state")+":"+in.label,"no sequential order consistent with real time explains the history: "+hs+" audit: "+as+" ["+cs+" schedule="+r.choices+"]","\"case\":"+vf::jstr(cs)+",\"schedule\":"+vf::jstr(r.choices)); }
@@ -64,7 +66,7 @@ int main(int argc,char **argv){ vf::init(argc,argv,"C09","model_checking");
 	tsan_pass(); return vf::finish();
 #else
 	int n=16; bool th=vf::thorough();
-	vf::C().rule="thread programs over {fetch(a), fetch(b), store(a,{t}), store(a,{}), store(b,{t}), rise(t), remove(a), clear, stats}: all 81 pairs of single operations under ALL schedules, triples of single operations and 2x2 programs over a 6-operation subset under every schedule with <= "+std::string(th?"3":"2")+" preemptions, x initial states {empty, {a}, {a,b} at limit 2, {a} at limit 1}; scheduling points = every pthread rwlock / mutex operation of the cache. Oracle: brute-force linearizability of the recorded history w.r.t. the set-valued cache model + final audit; deadlock detection. states = distinct observed outcome vectors, transitions = scheduling decisions, traces = executions of the real code. Data races: separate free-running ThreadSanitizer pass";
+	vf::C().rule="keys a=\"a \" and b=\"b\\x10\" have equal hash values (same bucket at every table size); thread programs over {fetch(a), fetch(b), store(a,{t}), store(a,{}), store(b,{t}), rise(t), remove(a), clear, stats}: all 81 pairs of single operations under ALL schedules, triples of single operations and 2x2 programs over a 6-operation subset under every schedule with <= "+std::string(th?"3":"2")+" preemptions, x initial states {empty, {a}, {a,b} at limit 2, {a} at limit 1}; scheduling points = every pthread rwlock / mutex operation of the cache. Oracle: brute-force linearizability of the recorded history w.r.t. the set-valued cache model + final audit; deadlock detection. states = distinct observed outcome vectors, transitions = scheduling decisions, traces = executions of the real code. Data races: separate free-running ThreadSanitizer pass";
 	vf::assume("atomicity and ordering are decided at lock granularity (scheduling points at the pthread operations the cache performs); weak-memory effects below the pthread primitives are not modelled"); vf::assume("the data-race clause is decided by ThreadSanitizer on free-running executions of the same programs (happens-before analysis of the schedules that occurred, not enumeration)");
 	if(!vf::C().replay_file.empty()) printf("replay: the replay file names the program and the schedule (choice vector); re-running the quick tier reproduces it\n");
 	vf::parallel(n,n,[&](int sh){ shard(sh,n); },th?1700:280);
